@@ -29,6 +29,20 @@ def tokenizer_table(prog):
                 rows.append(["call " + ev[1].split("::")[-1] + ("(%s)" % guards.fmt_terms(ev[2][0]) if ev[1].endswith("append") else ""), sorted(guards.guard_set(b, S, ev[6]))])
         rows.sort(key=lambda r: (r[0], r[1]))
         out[fid] = rows
+    # resolution of the include file name relative to the including file
+    fid = "loader::make_include_filename"
+    b = prog.bodies.get(fid)
+    if b is not None:
+        S = A2 = sym.Analyzer(prog, opaque=[r"loader::.*"]).summary(fid)
+        rows = []
+        for ev in S.events:
+            if ev[0] == "call" and ev[3] == fid and re.search(r"std::path::|ffi::os_str|OsString", ev[1]):
+                nm = mir.strip_generics(ev[1])
+                if re.search(r"(Path::new|as_ref|deref|from|borrow|to_owned|into|as_os_str)$", nm):
+                    continue
+                rows.append(["path " + "::".join(nm.split("::")[-2:]), sorted(guards.guard_set(b, S, ev[6]))])
+        rows.sort(key=lambda r: (r[0], r[1]))
+        out[fid] = rows
     return out
 
 
@@ -94,6 +108,17 @@ def run(chk):
                         m = re.fullmatch(r"discr\(arg1\) == (.*)", g)
                         if m:
                             rec.update(m.group(1).split("|"))
+            # the descent and the reset are unconditional: they depend only on the variant and on the iteration over the items
+            for ev in S.events:
+                blk = ev[6] if ev[0] == "call" else (ev[5] if ev[0] == "write" else None)
+                if blk is None or ev[3] != b.id or (ev[0] == "call" and not ev[1].endswith("GenericIfData::merge_includes")):
+                    continue
+                if ev[0] == "write" and not re.search(r"incfile|\.0$", sym.fmt(ev[1])):
+                    continue
+                extra = [g for g in guards.guard_set(b, S, blk) if not re.fullmatch(r"discr\(arg1\) == \w+(\|\w+)*", g) and not re.fullmatch(r"discr\(arg1(\.[\w|.]+)*\) == Some", g)]
+                n += 1
+                if extra:
+                    chk.add(Finding("R16-ifdata", "R16-ifdata::conditional::" + ("recurse" if ev[0] == "call" else "clear"), "GenericIfData::merge_includes %s only under the additional condition %s: items below an element that was not itself included (or already cleared) keep their /include origin" % ("descends into nested items" if ev[0] == "call" else "clears the include origin", extra), b.where(ev[4])))
             cleared = set()
             for ev in S.events:
                 if ev[0] == "write" and ev[3] == b.id:
